@@ -1,6 +1,7 @@
 /- gdmodel: line-protocol driver for the executable Lean models. -/
 import GdModel.Driver.Conv
 import GdModel.Driver.Field
+import GdModel.Driver.Tok
 open GdModel.Driver
 
 structure St where
@@ -15,6 +16,7 @@ def step (st : St) (line : String) : St × String :=
     match parseDef rest with
     | some d => ({ st with db := st.db ++ [d] }, "-")
     | none => (st, "bad-def")
+  | "tok" :: rest => (st, handleTok st.spec rest)
   | "reset" :: _ => ({ st with db := [] }, "-")
   | "open" :: _ => (st, "open e=0")
   | "get" :: rest => (st, handleGet st.spec st.db rest)
